@@ -267,5 +267,12 @@ struct Ell {
     return GM / r * s;
   }
 };
+// flattening of the level ellipsoid with the given J2 (oblate branch, 0 <= f < 0.9), by bisection on the closed form above
+inline Q f_from_J2(Q a, Q GM, Q omega, Q J2) {
+  Q lo = 0, hi = Q(0.9);
+  if (!(Ell(a, GM, omega, lo).J2 <= J2 && J2 <= Ell(a, GM, omega, hi).J2)) return Q(-1);   // not on the oblate branch
+  for (int i = 0; i < 130; ++i) { Q mid = (lo + hi) / 2; if (Ell(a, GM, omega, mid).J2 < J2) lo = mid; else hi = mid; }
+  return (lo + hi) / 2;
+}
 }  // namespace ng
 }  // namespace sph
